@@ -1,5 +1,5 @@
 """scrapli.driver.base.async_driver"""
-
+import asyncio
 from types import TracebackType
 from typing import Any, Optional, Type, TypeVar
 
@@ -45,6 +45,13 @@ class AsyncDriver(BaseDriver):
         """
         try:
             await self.open()
+        except asyncio.CancelledError:
+            # cancelled while opening (outer timeout, task cancellation): `__aexit__` will not be
+            # called, so release what open acquired before letting the cancellation through
+            self.transport.close()
+            self.channel.close()
+
+            raise
         except Exception as exc:
             self.logger.critical(
                 "encountered exception during open in context manager,"
